@@ -187,6 +187,7 @@ type FuncRun struct {
 	scoutingHead *ssa.BasicBlock
 	backStates []*State
 	assumedOrder []string
+	pendingBack  []pendingBackEdge
 	constGlobals map[string]string
 	curInstr string
 	addrLog    map[string][]addrWrite
@@ -254,7 +255,8 @@ func (fr *FuncRun) def(sort, expr string) string {
 		return expr
 	}
 	n := fr.freshName("v")
-	fr.emit(fmt.Sprintf("(define-fun %s () %s %s)", n, sort, expr))
+	fr.emit(fmt.Sprintf("(declare-fun %s () %s)", n, sort))
+	fr.emit(fmt.Sprintf("(assert (= %s %s))", n, expr))
 	return n
 }
 
@@ -267,8 +269,11 @@ func (fr *FuncRun) constFor(sort, expr, hint string) string {
 }
 
 func (fr *FuncRun) defAlways(sort, expr, hint string) string {
+	// a declared constant with a defining equation (not a macro: macros containing ite/and/or are
+	// expanded by the solvers and make :pattern annotations that mention them illegal)
 	n := fr.freshName(hint)
-	fr.emit(fmt.Sprintf("(define-fun %s () %s %s)", n, sort, expr))
+	fr.emit(fmt.Sprintf("(declare-fun %s () %s)", n, sort))
+	fr.emit(fmt.Sprintf("(assert (= %s %s))", n, expr))
 	return n
 }
 
